@@ -24,7 +24,7 @@ Proof. intros H. exists out. split; [exact H|right; exists t; reflexivity]. Qed.
 Lemma subst_nonterm cl ll i t : nonterm t -> nonterm (subst_body cl ll i t).
 Proof.
   unfold subst_body, nonterm, is_terminal. destruct (t_typ t) eqn:E; intros H; try exact H; try (rewrite E; exact H).
-  destruct (text_eqb (t_val t) cl); [reflexivity|]. destruct (mem_text (t_val t) ll); [reflexivity|]. rewrite E. reflexivity.
+  destruct (text_eqb (t_val t) cl); [reflexivity|]. rewrite E. reflexivity.
 Qed.
 Lemma repeat_nonterm n : forall i cl ll body, Forall nonterm body -> Forall nonterm (repeat_body n i cl ll body).
 Proof.
